@@ -8,6 +8,7 @@ import (
 	"os"
 	"path/filepath"
 	"seata.apache.org/seata-go/pkg/protocol/message"
+	"seata.apache.org/seata-go/pkg/util/vshim/vtime"
 	"strings"
 	"sync"
 	"sync/atomic"
@@ -21,6 +22,7 @@ import (
 
 	"verifharness/faketc"
 	"verifharness/memdb"
+	"verifharness/quiet"
 )
 
 type nopLogger struct{}
@@ -103,7 +105,12 @@ func InitClient() {
 		if os.Getenv("VERIF_LOG") == "" && devnull != nil {
 			os.Stdout, os.Stderr = devnull, devnull
 		}
+		// the client's background tickers (asynchronous phase-two commit flush, table-meta refresh) are created while time is
+		// virtual: they tick only when a check calls vtime.Tick, so no background statement lands in the middle of a case
+		vtime.SetVirtual(nil)
 		client.InitPath(path)
+		quiet.Spin(nil, 5) // the goroutines started by the initialisation create their tickers on their own time
+		vtime.SetPassThrough()
 		os.Stdout, os.Stderr = so, se
 		log.SetLogger(nopLogger{})
 		if os.Getenv("VERIF_LOG") != "" {
